@@ -69,6 +69,27 @@ check("C11",
       "model-based testing: generated operation histories with generated flush behaviours against a reference lifecycle model",
       "DESIGN.md 5/C11")
 
+check("C12",
+      "Two generators of call/dirty/completion interleavings against a reference in-flight table: (timed) histories executed inside one computation on a round clock -- caller tasks wait w rounds, then call key k of a deduplicated function / method on instance 1 or 2 / static method with a positional / keyword / explicit-default spelling, or call dirty(k); bodies last r(k) rounds and optionally fail; (toplevel) histories of t = f.asynq(k), t.value(), dirty(k) outside any task. Oracle: a call returns the identical task object iff an entry for the normalised key exists, was not dirtied and is not complete; body-run counters per key; every sharer receives the same value/error; different keys, functions and instances never share.",
+      "Trusted: the in-flight table model. When a call and the completion of the in-flight task fall in the same round the model accepts both outcomes (counted as ties).",
+      "model-based testing of generated timed histories (deterministic round clock) and top-level operation histories against a reference table",
+      "DESIGN.md 5/C12")
+check("C13",
+      "Generated call histories over small key spaces, four signatures (positional, default, keyword-only), every spelling, blocking/raising bodies: alru_cache(maxsize 1-4, default key or custom key_fn) on functions and methods, acached_per_instance on up to 3 instances with instance death, against reference caches keyed by inspect.signature(...).bind(...) with defaults applied (LRU order/capacity, failures not stored, per-instance independence, cache vanishes with the instance); alazy_constant(ttl) histories of call / clock advance / dirty on a harness clock against a ttl cell model (exactly one recomputation per dirty/expiry).",
+      "Trusted: inspect.signature binding as the notion of 'normalised arguments'; the harness clock replacing asynq.tools.utime. *args signatures are not generated (qcore.get_args_tuple, a dependency, mishandles them).",
+      "model-based testing: generated call histories against reference caches (OrderedDict LRU / per-instance dict / ttl cell)",
+      "DESIGN.md 5/C13")
+check("C14",
+      "Generated inputs (ints, None, unorderable objects with equal keys; list / tuple / one-shot iterator; immediate or batch-blocking key/predicate; reverse; varargs and single-iterable forms; bad inputs) for amap, afilter, afilterfalse, asorted, amax, amin, asift compared by object identity with map/filter/filterfalse/sorted/max/min/a two-list partition, same exception type on bad input, exactly one flush per helper call with a blocking key; aretry over the enumerated grid k in 0..6 x max_tries in 0..6 x position of an unlisted exception x exception spec x blocking body: body-run count min(k+1, max_tries), re-raise of anything else immediately, arguments passed through.",
+      "Trusted: Python's built-ins as the reference.",
+      "differential property-based testing against the built-ins + exhaustive enumeration of the aretry grid",
+      "DESIGN.md 5/C14")
+check("C17",
+      "Generated async-generator bodies (operation lists over Value / await constant / await batch item / await child task; trailing awaits, no Values, empty; optionally consumed through an outer async generator) with consumers list_of_generator, repeated take_first(n) (0 <= n <= len+2) on one generator, manual next() misuse and advancing after exhaustion, against a list model with a position pointer: exactly the Values in order, take_first(gen, 0) == [] without advancing, bound on how far the body has advanced, END_OF_GENERATOR never in a result, RuntimeError on premature advance, StopIteration repeatedly after exhaustion.",
+      "Trusted: the list/pointer model. Raising bodies are not generated.",
+      "model-based property testing of generated generator bodies and consumer call sequences",
+      "DESIGN.md 5/C17")
+
 for pid in ["C%02d" % i for i in range(1, 21)]:
     if pid not in CHECKS:
         PENDING[pid] = "check under construction in this framework (designed in DESIGN.md section 5, not yet registered)"
